@@ -154,6 +154,9 @@ def run_life(case):
             session = len(env.world.links)
             env.world.fault_fired = False
             net.fault = dict(at['fault'], session=session) if at.get('fault') else None
+            if net.fault and net.fault.get('empty_msg'):
+                net.fault['msg'] = ''       # the text of a link error is free: a driver may report an error that has none
+                out.feat('error-without-text')
             closes = [0]
             user = {'open': None, 'close': None, 'done': False}
             try:
@@ -297,7 +300,8 @@ def run_life(case):
 _sched = st.fixed_dictionaries({'prefix': st.lists(st.integers(0, 3), max_size=40), 'seed': st.integers(0, 10 ** 6),
                                 'rate': st.sampled_from([0.0, 0.0, 0.05, 0.2, 0.5])})
 _attempt = st.fixed_dictionaries({
-    'fault': st.one_of(st.none(), st.fixed_dictionaries({'k': st.integers(1, 90), 'reporter': st.sampled_from(['driver', 'sender', 'driver-quiet'])})),
+    'fault': st.one_of(st.none(), st.fixed_dictionaries({'k': st.one_of(st.integers(0, 90), st.sampled_from([0, 0, 1])), 'reporter': st.sampled_from(['driver', 'sender', 'driver-quiet']),
+                                                          'empty_msg': st.sampled_from([False, False, False, True])})),
     'close_at': st.one_of(st.none(), st.none(), st.sampled_from([0.0, 0.0005, 0.002, 0.005, 0.01, 0.02, 0.05, 0.3, 2.0])),
     'sync': st.booleans(),
     'close_in_cb': st.sampled_from([None, None, None, None, 'link_established', 'connected', 'fully_connected'])})
@@ -317,9 +321,9 @@ def sweep_cases(tier):
         for rep in ('driver', 'sender', 'driver-quiet'):
             for sync in (False, True):
                 step = 1 if tier == 'thorough' else 2
-                for k in range(1, kmax, step):
+                for k in range(0, kmax, step):
                     yield {'nlog': nlog, 'nparam': nparam, 'mems': mems, 'version': 10, 'needs_resending': False, 'delays': [0.001],
-                           'attempts': [{'fault': {'k': k, 'reporter': rep}, 'close_at': None, 'sync': sync}],
+                           'attempts': [{'fault': {'k': k, 'reporter': rep, 'empty_msg': sync and k % 3 == 0}, 'close_at': None, 'sync': sync}],
                            'schedule': {'prefix': [], 'seed': k, 'rate': 0.0 if k % 2 else 0.2}}
                     if rep == 'sender' and not sync:
                         # no latency at all: the whole session happens in one instant, the threads (dispatcher, parameter updater,
